@@ -89,6 +89,8 @@ def strip(r):
                                if not (isinstance(k, str) and k.startswith("_"))))
     if isinstance(r, tuple):
         return ("list", tuple(strip(x) for x in r[1]))
+    if r is None:
+        return ("none",)
     return ("v", r) if not isinstance(r, bool) else ("v", int(r))
 
 
@@ -452,7 +454,8 @@ def run_bfs(unit, tier, r):
 
 def family(tier):
     keys = ["a", "b", "_p", 1]
-    vals = [0, 1, "s", V_C0, V_C1, V_C2, ["C", [["x", 1]]], ["LC", [["C", [["y", 1]]]]], ["LC", [["C", [["y", 1], ["_z", 2]]]]], V_LIST]
+    vals = [0, 1, "s", None, V_C0, V_C1, V_C2, ["C", [["x", 1]]], ["LC", [["C", [["y", 1]]]]], ["LC", [["C", [["y", 1], ["_z", 2]]]]], V_LIST,
+            ["C", [["x", None]]], False, ""]
     if tier == "thorough":
         vals = vals + [V_CC, ["C", [["n", ["C", [["y", 1], ["_h", 0]]]]]], True]
     fam = [["C", []]]
@@ -460,7 +463,7 @@ def family(tier):
         for v in vals:
             fam.append(["C", [[k, v]]])
     for k1, k2 in itertools.permutations(keys, 2):
-        for v1, v2 in itertools.product(vals[:7] if tier == "quick" else vals[:9], repeat=2):
+        for v1, v2 in itertools.product(vals[:8] if tier == "quick" else vals[:10], repeat=2):
             fam.append(["C", [[k1, v1], [k2, v2]]])
     return fam
 
@@ -547,6 +550,11 @@ S_FAMILY = [
     ["C", []],
     ["C", [["lst", ["LC", []]], ["a", ["L", [1, 2]]], ["b", "s"]]],
     ["C", [["lst", ["LC", [["LC", [["C", [["a", 7]]]]], ["C", [["a", 8]]]]]]]],
+    ["C", [["lst", ["LC", [["C", [["a", 0]]], ["C", [["a", 5]]]]]]]],
+    ["C", [["lst", ["LC", [["C", [["a", ""]]], ["C", [["a", 5]]]]]], ["a", 6]]],
+    ["C", [["n", ["C", [["a", 0]]]], ["a", 3]]],
+    ["C", [["lst", ["LC", [["LC", [["C", [["a", False]]]]], ["C", [["a", 1]]]]]]]],
+    ["C", [["a", 0], ["b", ["C", [["a", 1]]]]]],
 ]
 S_PATTERNS = ["a", "ab.*", "^$", "x", "a$", ".*", "[ab]", "n"]
 
@@ -568,7 +576,7 @@ def ref_search_all(ref, pat):
 
 def run_search(tier, r):
     import construct as C
-    for d in S_FAMILY + [x for x in family("quick")[:60]]:
+    for d in S_FAMILY + [x for x in family("quick")[:80] if "None" not in repr(x)]:    # search() cannot tell a None value from "no match"
         c, ref = mk_real(d), mk_ref(d)
         r.state("Q" + jkey(d))
         for p in S_PATTERNS:
